@@ -681,6 +681,17 @@ class RequestHandler(BaseProtocol, Generic[_Request]):
                     # wait for next request
                     self._waiter = loop.create_future()
                     await self._waiter
+                except asyncio.CancelledError:
+                    # close() cancels the waiter of an idle connection (the
+                    # task itself is not being cancelled): close it right away.
+                    if (
+                        self._close
+                        and sys.version_info >= (3, 11)
+                        and (t := asyncio.current_task())
+                        and not t.cancelling()
+                    ):
+                        break
+                    raise
                 finally:
                     self._waiter = None
 
